@@ -283,15 +283,23 @@ def check_concurrent(t, rec: Recorder):
     from diameter.message import Message
     bufs, seed, p = t
     case = {"concurrent": [b.hex() for b in bufs], "seed": seed, "p": p}
-    Counters.avp_budget = Counters.prim_budget = 1 << 60
+    # the work counters are shared by the threads: a bound for all inputs together, twice (typed + plain), so that a
+    # decoder that does not terminate ends here as it does in the sequential part (which is where it is reported)
+    total = sum(len(b) for b in bufs)
+    Counters.avp_budget = 8 * (4 * (total // 8 + 1) * (MAX_WALK_DEPTH + 1))
+    Counters.prim_budget = 16 * Counters.avp_budget + 64
 
     def decode(b):
         out = []
         for plain in (False, True):
+            Counters.avp_calls = Counters.prim_calls = 0
             try:
                 m = Message.from_bytes(b, plain_msg=plain) if plain else Message.from_bytes(b)
             except allowed() as e:
                 out.append(("decode-error", type(e).__name__))
+                continue
+            except WorkBudget:
+                out.append(("work-bound",))
                 continue
             h = m.header
             tops = tuple((a.code, a.vendor_id, bytes(a.payload)) for a in m.avps)
